@@ -9,6 +9,9 @@ use std::fs::File;
 use std::io::Read;
 use std::str::Lines;
 
+/// The maximum depth to which sections (and included files) may be nested.
+const MAX_DEPTH: usize = 64;
+
 /// Represents a node in the configuration syntax tree.
 #[derive(PartialEq, Eq, Clone, Debug)]
 pub enum ConfigNode {
@@ -153,7 +156,7 @@ pub fn parse_conf(conf: &str, filename: &str) -> Result<ConfigNode, ConfigError>
     }
 
     // Parses the main section
-    parse_section("server", &mut lines, filename)
+    parse_section("server", &mut lines, filename, 0)
 }
 
 /// Recursively parses a section of the configuration.
@@ -161,7 +164,16 @@ fn parse_section(
     name: &str,
     lines: &mut TracebackIterator<Lines>,
     filename: &str,
+    depth: usize,
 ) -> Result<ConfigNode, ConfigError> {
+    // Sections and includes are parsed recursively, so unbounded nesting would overflow the stack
+    quiet_assert(
+        depth <= MAX_DEPTH,
+        "Sections are nested too deeply",
+        filename,
+        lines,
+    )?;
+
     let mut values: Vec<ConfigNode> = Vec::new();
 
     // While this section has not ended
@@ -178,7 +190,7 @@ fn parse_section(
                 if section_name.starts_with("route ") && section_name != "route {" {
                     // If the section is a route section, parse it as such
                     let route_name = section_name.splitn(2, ' ').last().unwrap().trim();
-                    let section = parse_section(route_name, lines, filename)?;
+                    let section = parse_section(route_name, lines, filename, depth + 1)?;
                     if let ConfigNode::Section(route_name, inner_values) = section {
                         values.push(ConfigNode::Route(route_name, inner_values));
                     }
@@ -193,13 +205,13 @@ fn parse_section(
                         }
                     };
 
-                    let section = parse_section(&host_name, lines, filename)?;
+                    let section = parse_section(&host_name, lines, filename, depth + 1)?;
                     if let ConfigNode::Section(host_name, inner_values) = section {
                         values.push(ConfigNode::Host(host_name, inner_values));
                     }
                 } else {
                     // If the section is just a regular section, parse it in the normal way
-                    values.push(parse_section(section_name, lines, filename)?);
+                    values.push(parse_section(section_name, lines, filename, depth + 1)?);
                 }
             } else if line == "}" {
                 // If the line indicates the end of this section, return the parsed section
@@ -235,8 +247,12 @@ fn parse_section(
                         ));
                     }
                 } else if wildcard_match("\"*\"", value) {
-                    let include_result =
-                        include(&value[1..value.len() - 1], filename, lines.current_line());
+                    let include_result = include(
+                        &value[1..value.len() - 1],
+                        filename,
+                        lines.current_line(),
+                        depth + 1,
+                    );
                     if let Ok(included_nodes) = include_result {
                         values.extend(included_nodes);
                     } else {
@@ -266,14 +282,19 @@ fn parse_section(
 
 /// Attempts to include the configuration file at the specified path into the tree,
 ///   returning a `Vec` of `ConfigNode`s. If unsuccessful, returns a descriptive error.
-fn include(path: &str, containing_file: &str, line: u64) -> Result<Vec<ConfigNode>, ConfigError> {
+fn include(
+    path: &str,
+    containing_file: &str,
+    line: u64,
+    depth: usize,
+) -> Result<Vec<ConfigNode>, ConfigError> {
     if let Ok(mut file) = File::open(path) {
         let mut buf = String::new();
         if file.read_to_string(&mut buf).is_ok() {
             buf.push_str("\n}");
 
             let mut iter = TracebackIterator::from(buf.lines());
-            let parsed_node = parse_section("temp_included_section", &mut iter, path)?;
+            let parsed_node = parse_section("temp_included_section", &mut iter, path, depth)?;
 
             match parsed_node {
                 ConfigNode::Section(_, children) => Ok(children),
